@@ -208,7 +208,7 @@ const cJSON *credentials_ok(const char *user_name, char *passwd)
 		goto out;
 	}
 
-	cJSON *user = cJSON_GetObjectItem(users, user_name);
+	cJSON *user = cJSON_GetObjectItemCaseSensitive(users, user_name);
 	if (user == NULL) {
 		goto out;
 	}
@@ -260,7 +260,7 @@ static bool is_readonly(const cJSON *user)
 
 static bool is_admin(const char *current_user)
 {
-	cJSON *user = cJSON_GetObjectItem(users, current_user);
+	cJSON *user = cJSON_GetObjectItemCaseSensitive(users, current_user);
 	if (user == NULL) {
 		return false;
 	}
@@ -428,7 +428,7 @@ cJSON *change_password(const struct peer *p, const cJSON *request, const char *u
 		goto out;
 	}
 
-	cJSON *user = cJSON_GetObjectItem(users, user_name);
+	cJSON *user = cJSON_GetObjectItemCaseSensitive(users, user_name);
 	if (user == NULL) {
 		response = create_error_response_from_request(p, request, INVALID_PARAMS, "reason", "user not in password database");
 		goto out;
